@@ -12,4 +12,5 @@ else
   PF=$(realpath "$1"); (cd "$D" && patch -p1 -s < "$PF"); shift
 fi
 [ "$1" = "--" ] && shift
-cd /verif && VERIF_REPO="$D" ./check "$@"
+set +e
+cd /verif && VERIF_REPO="$D" VERIF_RUNTAG="_mut$$" VERIF_EVID="${VERIF_EVID:-/verif/.cache/evidence_alt}" ./check "$@"; rc=$?; rm -rf "/verif/.cache/run/"*"_mut$$"*; exit $rc
